@@ -312,8 +312,8 @@ type diskFile struct {
 	rel, abs string
 }
 
-func (f diskFile) Path() string                { return f.rel }
-func (f diskFile) Lstat() (os.FileInfo, error) { return os.Lstat(f.abs) }
+func (f diskFile) Path() string                 { return f.rel }
+func (f diskFile) Lstat() (os.FileInfo, error)  { return os.Lstat(f.abs) }
 func (f diskFile) Open() (io.ReadCloser, error) { return os.Open(f.abs) }
 
 func zipEntries(b []byte) (map[string]string, error) {
